@@ -536,6 +536,12 @@ def run(chk, db, tier):
     # percent-decoded before it is split turns an encoded `&` inside a value into a flag
     sub.rule("R1", "the query reaches OrderedQs::parse as Uri::query() gave it (decoded exactly once, by the parser)")
     sub.guard("R1", c12.rule_r1q, db)
+    # ... and a PUT / any non-POST request is never taken for a browser upload because of its Content-Type (decided for C10)
+    from . import c10, sigcore
+    sub10 = Sub(chk, "C10")
+    sub10.rule("R7", "the form verifier is entered only when the request method is POST")
+    for v_ in [v for v in sigcore.find_verifiers(db) if v.kind == "v4-post"]:
+        sub10.guard("R7", c10.rule_r7, db, v_)
     # prerequisite for "causes exactly one invocation": the deserialiser finds the body / path parts the router promised (else it panics
     # and nothing is invoked; decided for C04)
     sub4 = Sub(chk, "C04")
